@@ -478,6 +478,10 @@ int main(int argc, char** argv)
       }
       for (int i = 0; i < NSB; i++) {
         sb[i] = std::make_unique<RS>();
+        if (i == 1) {
+          // the second sandbox gets its transition state BEFORE it is created, the first one after
+          sb[i]->set_transition_state((void*)SB_NAMES[i]);
+        }
 #if defined(BK_VM)
         sb[i]->create_sandbox(i == 0 ? &lib1 : &lib2);
 #elif defined(BK_DYLIB)
@@ -498,7 +502,9 @@ int main(int argc, char** argv)
 #else
         expected_invoke_ptr[i] = reinterpret_cast<const void*>(&tree_fn);
 #endif
-        sb[i]->set_transition_state((void*)SB_NAMES[i]); // same literal as LABELS[i][0] (merged by the compiler)
+        if (i != 1) {
+          sb[i]->set_transition_state((void*)SB_NAMES[i]); // same literal as LABELS[i][0] (merged by the compiler)
+        }
         sb[i]->clear_transition_times();
         sb_by_ptr[sb[i].get()] = SB_NAMES[i];
       }
@@ -542,6 +548,7 @@ int main(int argc, char** argv)
         stale[si].clear();
         void* ts = sb[si]->get_transition_state();
         sb[si]->destroy_sandbox();
+        sb[si]->set_transition_state(ts); // (re-)installed while the sandbox is not created
 #if defined(BK_VM)
         sb[si]->create_sandbox(si == 0 ? &lib1 : &lib2);
 #elif defined(BK_DYLIB)
